@@ -552,6 +552,9 @@ func (v *Violation) Key() string {
 		sort.Strings(f)
 		return "data_race@" + strings.Join(f, "+")
 	case "result_differs", "panic":
+		if strings.HasPrefix(v.OpSpec, "process_history(") {
+			return v.Class + "@process_history"
+		}
 		kind := v.OpSpec
 		if i := strings.IndexByte(kind, '('); i > 0 {
 			kind = kind[:i]
